@@ -294,7 +294,12 @@ func (g *G) Dur(label string) int64 {
 	if unit <= 0 {
 		unit = 1000000
 	}
-	return rapid.SampledFrom([]int64{0, 1, -1, unit - 1, unit, unit + 1, -unit, 3 * unit / 2, 1000000007, math.MaxInt64, math.MinInt64, math.MinInt64 + 1, 1500000, 1000, 60000000000,
+	if rapid.IntRange(0, 2).Draw(t, label+".dc") == 0 {
+		// arbitrary values of every magnitude: how a quotient rounds depends on all the digits
+		m := rapid.SampledFrom([]int64{10000000000, 10000000000000, 10000000000000000, math.MaxInt64}).Draw(t, label+".mag")
+		return rapid.Int64Range(-m, m).Draw(t, label+".any")
+	}
+	return rapid.SampledFrom([]int64{0, 1, -1, unit - 1, unit, unit + 1, -unit, 3 * unit / 2, 1000000007, math.MaxInt64, math.MinInt64, math.MinInt64 + 1, 1500000, 1000, 60000000000, 1140000000,
 		rapid.Int64().Draw(t, label+".rand"), rapid.Int64Range(-10000000000, 10000000000).Draw(t, label+".small")}).Draw(t, label+".d")
 }
 
@@ -400,6 +405,9 @@ func typesFor(where string, depth int, cfg Cfg) []string {
 		if !cfg.NoCaller {
 			ts = append(ts, "caller")
 		}
+		// Func at every depth, also in the innermost sub-events (those of Dict, Object, Fields marshalers:
+		// events that have no writer of their own): its callback adds scalar fields there
+		ts = append(ts, "func")
 		if depth > 0 {
 			ts = append(ts, "dict", "arr", "arrm", "obj", "embed", "fieldsmap", "fieldsslice", "func", "dict", "arr", "obj", "embed", "fieldsmap", "fieldsslice", "fieldsodd", "fieldsbad")
 		}
@@ -746,7 +754,7 @@ func (g *G) Settings() Settings {
 			s.IfaceErr = `q"\` + s.IfaceErr[3:] // text that needs escaping
 		}
 	}
-	s.LevelMarshal = rapid.SampledFrom([]string{"", "", "", "", "upper", "total"}).Draw(t, "set.lm")
+	s.LevelMarshal = rapid.SampledFrom([]string{"", "", "", "", "upper", "total", "merged"}).Draw(t, "set.lm")
 	if rapid.IntRange(0, 5).Draw(t, "set.glow") == 0 {
 		s.GlobalLow = rapid.SampledFrom([]int{8, 8, 3, 128}).Draw(t, "set.glowv")
 	}
@@ -976,6 +984,9 @@ func (g *G) Steps(label string, maxSteps int) []Step {
 		if parent >= 0 && canUpdate[resolve(parent)] {
 			kinds = append(kinds, "update", "update")
 		}
+		if g.set.DefaultCtx {
+			kinds = append(kinds, "updatedefault")
+		}
 		k := rapid.SampledFrom(kinds).Draw(t, label+".sk")
 		if forced != "" {
 			k = forced
@@ -984,6 +995,15 @@ func (g *G) Steps(label string, maxSteps int) []Step {
 		}
 		st := Step{Kind: k, From: from}
 		switch k {
+		case "updatedefault":
+			// plain fields only: what an UpdateContext function adds besides bytes (hooks, flags) does not survive it
+			for _, op := range g.Ops("context", g.cfg.MaxDepth-1, label+".dops") {
+				switch op.V.T {
+				case "stack", "ctx", "timestamp", "caller", "reset", "getctx":
+				default:
+					st.Ops = append(st.Ops, op)
+				}
+			}
 		case "with", "update":
 			st.Ops = g.Ops("context", g.cfg.MaxDepth-1, label+".cops")
 			if sibCtxHook {
